@@ -32,7 +32,7 @@ ASSUMPTIONS = [
 FLOORS = {
     'quick': {'programs': 6000, 'both_accepted': 12000, 'setting:ignorecase': 1200, 'setting:nameguard_off': 1200,
               'setting:whitespace': 1200, 'setting:parseinfo': 1200, 'sem:tagging': 2000, 'sem:identity': 2000,
-              'kwlike_names': 400, 'pyconst_tokens': 400, 'long_names': 600, 'reused_instance_parses': 20000, 'with_params': 400, 'with_directives': 1200},
+              'kwlike_names': 400, 'pyconst_tokens': 400, 'long_names': 600, 'includes_or_based_rules': 500, 'reused_instance_parses': 20000, 'with_params': 400, 'with_directives': 1200},
     'thorough': {'programs': 100000, 'both_accepted': 200000},
 }
 N = {'quick': 9600, 'thorough': 160000}
@@ -86,6 +86,15 @@ def gen_case(rng):
     finally:
         pass
     features = set()
+    if rng.random() < 0.15:
+        # rule includes (>rule) and based rules (r < base)
+        from .c01 import add_sugar
+
+        class _Acc:
+            def count(self, *a):
+                pass
+        g = add_sugar(rng, g, F, _Acc())
+        features.add('includes_or_based_rules')
     # tokens that coincide with the repr of Python constants (configuration leaks show as skipped text)
     if rng.random() < 0.2:
         word = rng.choice(['None', 'True', 'False', 'Undefined'])
@@ -158,6 +167,10 @@ def retoken(g, mapping):
 
 
 def rename(g, mapping):
+    return G.rename_rules(g, mapping)
+
+
+def _rename_old(g, mapping):
     def rn(e):
         if isinstance(e, L.Call):
             return L.Call(mapping.get(e.name, e.name))
